@@ -63,6 +63,18 @@ var StateMutators = []StateMutator{
 		s.Data = nd
 		return true
 	}},
+	{"data-on-an-app-less-state", func(r *rand.Rand, s *channel.State) bool {
+		// an app-less state normally carries NoData, but the data field is encoded and signed regardless
+		if !channel.IsNoApp(s.App) {
+			return false
+		}
+		if d, ok := s.Data.(*BytesData); ok && len(d.B) > 0 {
+			s.Data = channel.NoData()
+			return true
+		}
+		s.Data = &BytesData{B: []byte{byte(1 + r.Intn(255)), byte(r.Intn(256))}}
+		return true
+	}},
 	{"data-truncate", func(r *rand.Rand, s *channel.State) bool {
 		d, ok := s.Data.(*BytesData)
 		if !ok || len(d.B) == 0 {
